@@ -678,6 +678,122 @@ def _task_proxy(_):
     return res
 
 
+class ProxyScenario(explore.Scenario):
+    """signal subscriptions of three proxies on two connections of one
+    process (two on one connection, for different paths): subscribe, cancel,
+    deliver"""
+    name = 'C12/proxies'
+    PROXIES = [(0, '/obj'), (1, '/obj'), (0, '/obj2')]
+
+    def build(self):
+        from txdbus import interface as I
+        w = W()
+        w.cws = [fakes.ClientWorld(), fakes.ClientWorld()]
+        ifc = I.DBusInterface('org.ex.S', I.Signal('Sig', 's'),
+                              noRegister=True)
+        w.prox = []
+        for ci, path in self.PROXIES:
+            out = []
+            w.cws[ci].conn.getRemoteObject('org.ex.Dest', path, ifc)\
+                .addCallback(out.append)
+            w.prox.append(out[0])
+        for cw in w.cws:
+            cw.sent()
+        w.subs = {}          # proxy index -> (rule id, rule text)
+        w.calls = []
+        w.serial = 4000
+        return w
+
+    def close(self, w):
+        for cw in reversed(w.cws):
+            cw.close()
+
+    def enabled(self, w):
+        evs = []
+        for k in range(len(self.PROXIES)):
+            evs.append(('cancel', k) if k in w.subs else ('sub', k))
+        for ci in (0, 1):
+            for path in ('/obj', '/obj2'):
+                evs.append(('sig', ci, path))
+        return evs
+
+    def _reply(self, w, ci, serial):
+        w.serial += 1
+        w.cws[ci].deliver(R.encode_message(R.METHOD_RETURN, w.serial,
+                                           {'reply_serial': serial}))
+
+    def apply(self, w, ev):
+        viol = []
+        try:
+            if ev[0] == 'sub':
+                k = ev[1]
+                ci = self.PROXIES[k][0]
+                ids = []
+                w.prox[k].notifyOnSignal(
+                    'Sig', lambda *a, k=k: w.calls.append(k))\
+                    .addBoth(ids.append)
+                m = w.cws[ci].sent()
+                if len(m) != 1 or m[0]['fields'].get('member') != 'AddMatch':
+                    return [('%s/proxies/subscribe-call' % PROP,
+                             'notifyOnSignal wrote %r' % (m,))]
+                self._reply(w, ci, m[0]['serial'])
+                if len(ids) != 1 or isinstance(ids[0], Exception) or \
+                        hasattr(ids[0], 'value'):
+                    return [('%s/proxies/subscribe-result' % PROP,
+                             'notifyOnSignal gave %r' % (ids,))]
+                w.subs[k] = (ids[0], m[0]['body'][0])
+            elif ev[0] == 'cancel':
+                k = ev[1]
+                ci = self.PROXIES[k][0]
+                rid, text = w.subs.pop(k)
+                w.prox[k].cancelSignalNotification(rid)
+                m = w.cws[ci].sent()
+                if len(m) != 1 or m[0]['fields'].get('member') != \
+                        'RemoveMatch' or m[0]['body'] != [text]:
+                    viol.append(('%s/proxies/cancel-call' % PROP,
+                                 'after %r: cancelSignalNotification of '
+                                 'proxy %d wrote %r, its rule was %r'
+                                 % (sorted(w.subs), k,
+                                    [(x['fields'].get('member'), x['body'])
+                                     for x in m], text)))
+                if m:
+                    self._reply(w, ci, m[0]['serial'])
+            else:
+                _, ci, path = ev
+                del w.calls[:]
+                w.serial += 1
+                w.cws[ci].deliver(R.encode_message(
+                    R.SIGNAL, w.serial, {'path': path,
+                                         'interface': 'org.ex.S',
+                                         'member': 'Sig'}, 's', ['v']))
+                want = sorted(k for k in w.subs
+                              if self.PROXIES[k] == (ci, path))
+                if sorted(w.calls) != want:
+                    viol.append((
+                        '%s/proxies/%s' % (
+                            PROP, 'after-cancel' if set(w.calls) - set(w.subs)
+                            else 'missed' if set(want) - set(w.calls)
+                            else 'spurious'),
+                        'subscribed proxies %r (index: connection, path = '
+                        '%r); a signal from %s on connection %d invoked the '
+                        'callbacks of %r, expected %r'
+                        % (sorted(w.subs), self.PROXIES, path, ci,
+                           sorted(w.calls), want)))
+        except Exception as e:
+            return [('%s/proxies/%s/raises-%s' % (PROP, ev[0],
+                                                  type(e).__name__),
+                     'event %r raised %r' % (ev, e))]
+        return viol
+
+    def canon(self, w):
+        if self.params.get('dedup'):
+            return tuple(sorted(w.subs))
+        return None
+
+    def nontrivial(self, hist):
+        return any(e[0] == 'cancel' for e in hist)
+
+
 def run(ctx):
     mk = 3 if ctx.quick else 9
     ctx.rule = (
@@ -694,7 +810,9 @@ def run(ctx):
         'by an independent parser, and the same text given to the built-in '
         'bus, which must deliver broadcasts exactly as the matcher says. D: '
         'proxy notifyOnSignal / cancelSignalNotification with matching and '
-        'mismatching signatures. E: one argument constraint (exact string, '
+        'mismatching signatures; every history (length <= 4, 5 thorough) of '
+        'subscribe / cancel / signal over three proxies on two connections '
+        'of one process. E: one argument constraint (exact string, '
         'path) at every index 0..63 against signals whose argument there '
         'matches, differs, is not a string, is missing or sits one place '
         'early - through the router, the rule text and the built-in bus'
@@ -710,6 +828,10 @@ def run(ctx):
     ctx.map(_task_argindex_router, [(i, n) for i in range(n)])
     ctx.map(_task_text, [('argindex', i, n) for i in range(n)])
     ctx.map(_task_proxy, [0])
+    explore.explore(ctx, ProxyScenario, {'dedup': False},
+                    max_depth=4 if ctx.quick else 5,
+                    label='proxy subscriptions on two connections, all '
+                          'histories')
     ctx.bounds = {'max_keys_per_rule': mk}
 
 
